@@ -1,6 +1,7 @@
 """props/C17.py — descriptor for property C17 (saved models, experiences and policies load back
 identically; a failed load signals it and leaves the destination untouched)."""
 import struct
+from fractions import Fraction
 
 REPO_SRCS = [
     "src/Utils/IO.cpp", "src/MDP/IO.cpp", "src/POMDP/IO.cpp",
@@ -16,6 +17,10 @@ RULE = ("random objects of all eight kinds (MDP::Model, SparseModel, Experience,
         "destination pre-filled with different content — once as written and once with the trailing whitespace stripped "
         "(last number = last byte of the stream) —, then every token-level truncation (ending at a token's last character), a list of random "
         "single-token corruptions and (one case in four) every position x vocabulary corruption is loaded; "
+        "plus `fmt` cases: the object is written through a stream whose formatting state the caller preset (precision "
+        "0..25, scientific/showpos/showpoint/uppercase/left/right/showbase/boolalpha/unitbuf, pending width) and must load "
+        "back identically; values include 17-significant-digit results of arithmetic (0.1+0.2, 1/3, ...) and probability rows "
+        "that sum to 1 only within the library tolerance (off by up to 9.5e-7); "
         "non-trivial = the written text has more than two tokens")
 TRUSTED_BASE = [
     "H_digits17: reading the max_digits10 (17 significant digits) decimal rendering of a double returns that double "
@@ -24,7 +29,7 @@ TRUSTED_BASE = [
     "checked against the real streams on every case",
     "whitespace layout (spaces/newlines, Eigen column padding) is not modelled: a stream is its token list",
     "Q has no negative zero, NaN or infinity: generators emit finite non-negative-zero doubles; std::istream rejects nan/inf",
-    "isProbability row sums are exact in the model and rounded in C++ (cases within 1e-12 of the 1e-6 tolerance are not generated)",
+    "isProbability row sums are exact in the model and rounded in C++ (generated rows are exact, or off by at most 9.5e-7: never within 5e-8 of the 1e-6 tolerance)",
 ]
 ASSUMPTIONS = [
     "objects satisfy their class invariants (shapes match S/A/O, transition/observation/policy rows are probabilities, "
@@ -50,6 +55,8 @@ def dyadic(rng, signed=True):
 
 def general(rng, signed=True):
     r = rng.random()
+    if rng.random() < 0.15:
+        return tricky(rng, signed)
     if r < 0.03:
         v = struct.unpack("<d", struct.pack("<Q", rng.randint(1, 2 ** 52 - 1)))[0]       # subnormal
     elif r < 0.06:
@@ -77,7 +84,24 @@ def prob_row(rng, n, gen):
     if sum(w) == 0.0:
         w[rng.randrange(n)] = 1.0
     s = sum(w)
-    return [hexf(x / s) for x in w]
+    row = [x / s for x in w]
+    r = rng.random()
+    if r < 0.35:
+        # a row that is a distribution only within the library's tolerance (|sum - 1| <= 1e-6, absolute):
+        # legal for the validating constructors and for isProbability, so it must load back
+        cand = list(row)
+        if r < 0.12:
+            cand = [round(x, 7) for x in row]                 # 0.3333333 x 3
+        elif r < 0.2:
+            cand = [round(x, 6) for x in row]
+        else:
+            i = max(range(n), key=lambda k: row[k])
+            cand[i] = row[i] + rng.choice([-1, 1]) * rng.choice([9e-7, 5e-7, 1e-7, 1e-9, 1e-11, rng.uniform(0, 9e-7)])
+        exact = sum(Fraction(x) for x in cand)
+        # keep 5e-8 away from the tolerance: the model sums exactly, C++ in floating point
+        if all(x >= 0.0 for x in cand) and abs(exact - 1) <= Fraction(95, 10 ** 8):
+            row = cand
+    return [hexf(x) for x in row]
 
 
 def val(rng, gen, signed=True, zero_p=0.0):
@@ -146,6 +170,21 @@ def g_ppol(rng, S, A, O, gen):
     return out
 
 
+# values whose shortest round-tripping decimal rendering needs 17 significant digits (results of
+# arithmetic), at several magnitudes
+TRICKY = [0.1 + 0.2, 1.0 / 3.0, 2.0 / 3.0, 0.1 * 3, 1.1 * 1.1, 0.7 + 0.1, 100.0 / 3.0, 1e15 / 3.0, 1e22 / 7.0,
+          123456789.0 / 7.0, 1e-5 / 3.0, 1e-9 * 1.1, 4.35 * 100, 1e300 / 3.0, 5e-324 * 3e15, 1e100 / 9.0]
+
+
+def tricky(rng, signed=True):
+    v = rng.choice(TRICKY)
+    if rng.random() < 0.3:
+        v = v * rng.choice([0.5, 2.0, 1024.0, 2.0 ** -30])
+    if signed and rng.random() < 0.4:
+        v = -v
+    return hexf(v)
+
+
 KINDS = ["model", "smodel", "exp", "sexp", "pol", "pmodel", "spmodel", "ppol"]
 
 
@@ -171,12 +210,48 @@ def one_case(rng, kind, sweep):
     return " ".join([kind] + dims + X + D + [str(nc)] + pairs + [str(len(voc))] + voc)
 
 
+# stream states preset by the caller before the write: (precision, flag mask, width, fill)
+# flag mask bits as in harness/C17/h.cpp runFmt.  Generated: every precision below, scientific, showpos,
+# showpoint, uppercase, left/right adjustment, showbase, boolalpha, unitbuf, a pending width (space fill).
+# NOT generated (the unchanged writers do not round-trip under them, see notes/C17.md "Round 6 seeds"):
+# fixed (1), hexfloat (1|2), internal adjustment (64), hex basefield (256), a non-space fill character.
+PRECISIONS = [0, 3, 6, 10, 14, 15, 16, 17, 18, 25]
+SAFE_BITS = (2, 4, 8, 16, 32, 128, 512, 1024, 2048)
+
+
+def fmt_case(rng, kind, prec=None):
+    if prec is None:
+        prec = rng.choice(PRECISIONS)
+    mask = 0; width = 0; fill = 32
+    if rng.random() < 0.5:
+        for bit in SAFE_BITS:
+            if rng.random() < 0.25:
+                mask |= bit
+        if (mask & 32) and (mask & 128):
+            mask &= ~128
+        if rng.random() < 0.4:
+            width = rng.choice([1, 5, 12, 30])
+    S = rng.choice([1, 2, 2, 3]); A = rng.choice([1, 2, 2, 3]); O = rng.choice([1, 2, 2, 3])
+    zp = 0.5 if kind in ("smodel", "sexp", "spmodel") else 0.1
+
+    def obj(g):
+        if kind in ("model", "smodel"): return g_model(rng, S, A, g, zp)
+        if kind in ("exp", "sexp"): return g_exp(rng, S, A, g, zp)
+        if kind == "pol": return g_pol(rng, S, A, g)
+        if kind in ("pmodel", "spmodel"): return g_pmodel(rng, S, A, O, g, zp)
+        return g_ppol(rng, S, A, O, g)
+    dims = [str(S), str(A)] + ([str(O)] if kind in ("pmodel", "spmodel", "ppol") else [])
+    return " ".join(["fmt", str(prec), str(mask), str(width), str(fill), kind] + dims + obj(rng.random() < 0.9) + obj(False))
+
+
 def gen(rng, tier):
     n = {"quick": 320, "thorough": 1600, "search": 600}[tier]
     out = ["digits %s %s" % (hexf(0.1234567), hexf(0.1234568))]
     for i in range(n // 40 + 2):
         S = rng.choice([1, 2, 3]); A = rng.choice([2, 3])
         out.append(" ".join(["polcopy", str(S), str(A)] + g_pol(rng, S, A, rng.random() < 0.5) + g_pol(rng, S, A, False)))
+    for i in range(3 * n // 4):
+        out.append(fmt_case(rng, KINDS[i % len(KINDS)], PRECISIONS[(i // len(KINDS)) % len(PRECISIONS)]))
     for i in range(n):
         kind = KINDS[i % len(KINDS)] if rng.random() < 0.7 else rng.choice(KINDS)
         out.append(one_case(rng, kind, rng.random() < 0.25))
